@@ -155,14 +155,17 @@ def _stale_constant(kind: str) -> Any:
     return _PoisonIter()
 
 
+STALE_LEN = 2
+
+
 def _param(kind: str, v: str) -> Tuple[str, str]:
     if kind == "bool":
         return f"{v}: bool", "True"
     if kind == "int":
         return f"{v}: int", "True"
     if kind == "str":
-        return f"{v}: str", f"len({v}) <= 2"
-    return f"{v}: List[int]", f"len({v}) <= 2"
+        return f"{v}: str", f"len({v}) <= {STALE_LEN}"
+    return f"{v}: List[int]", f"len({v}) <= {STALE_LEN}"
 
 
 def install(lexer: Any, parser: Any, values: Sequence[Any]) -> None:
@@ -380,11 +383,14 @@ def main() -> int:
                                   "stacks); concrete worst case: callables and iterators that raise when touched, a production object",
                   "probes": PROBES, "discovered_attributes": [f"{o}.{n}:{k}" for o, n, k in ATTRS],
                   "concrete_histories": f"all sequences of <= 3 calls from a pool of {len(HISTORY_POOL)} inputs x {len(PROBES)} probes"}
-    run.outside = ["instance attributes that no warm-up history creates", "stale lists longer than 2 / strings longer than 2",
+    run.outside = ["instance attributes that no warm-up history creates", "stale lists / strings longer than the bound",
                    "hash seeds other than the swept ones (finite sweep)", "threads sharing one instance"]
     run.assumptions = ["one step from an arbitrary stale pre-state covers histories of any length and any interleaving with other instances, "
                        "provided instances share no mutable class-level object - checked by the class-table snapshot before/after the "
                        "concrete sweep", "the fresh pair's outcome is the reference (C10 checks that it is a node or a library exception)"]
+    global STALE_LEN
+    STALE_LEN = 2 if run.tier == "quick" else 5
+    run.bounds["stale_values"] = run.bounds["stale_values"].replace("<= 2", f"<= {STALE_LEN}")
     before = class_state()
     seeds = _v.SubRun(run, seed_sweep)
     items = _items()
